@@ -72,7 +72,7 @@ theorem allButProc_notProc : AllButProc notProc := by
 /-- "no more process-end wake-ups than in `w0`, for every process" -/
 theorem npLe_closed (w0 : World) : EvClosed notProc fun w => ∀ z, np w z ≤ np w0 z where
   ev_only := fun h e z => by unfold np; rw [cnt_of_ev e]; exact h z
-  sub := fun w ev' hs _ _ h z => by
+  sub := fun w ev' hs h z => by
     have : np { w with ev := ev' } z ≤ np w z := hs.countP_le
     exact Nat.le_trans this (h z)
   sched := fun w a s sig t pri ha h z => by
@@ -88,7 +88,7 @@ def WEv (w0 w : World) : Prop :=
 
 theorem wev_closed (w0 : World) : EvClosed notProc (WEv w0) where
   ev_only := fun h e => ⟨(npLe_closed w0).ev_only h.1 e, by rw [e]; exact h.2⟩
-  sub := fun w ev' hs a b h => ⟨(npLe_closed w0).sub w ev' hs a b h.1, fun e he => h.2 e (hs.subset he)⟩
+  sub := fun w ev' hs h => ⟨(npLe_closed w0).sub w ev' hs h.1, fun e he => h.2 e (hs.subset he)⟩
   sched := fun w a s sig t pri ha h => by
     refine ⟨(npLe_closed w0).sched w a s sig t pri ha h.1, ?_⟩
     intro e he hp
